@@ -3781,11 +3781,24 @@ def _fix_duplicate_from_imports(source: str) -> str:
     for group in _group_statements_of_type(root, ast.ImportFrom):
         module_import_aliases = collections.defaultdict(set)
         module_import_nodes = collections.defaultdict(list)
+        group = sorted(group, key=lambda node: (node.lineno, node.col_offset))
 
-        for node in group:
+        for i, node in enumerate(group):
             if any(alias.name == "*" for alias in node.names):
                 continue  # Starred imports cannot be merged with other imports
             key = (node.module, node.level)
+            if module_import_nodes[key]:
+                # The names move up to the first import of the module, which must not be past
+                # something else that binds them, or a starred import, that may bind anything.
+                names = {alias.asname or alias.name for alias in node.names}
+                first_index = group.index(module_import_nodes[key][0])
+                if any(
+                    alias.name == "*" or (alias.asname or alias.name) in names
+                    for other in group[first_index + 1 : i]
+                    if (other.module, other.level) != key
+                    for alias in other.names
+                ):
+                    continue
             module_import_aliases[key].update(
                 (alias.name, alias.asname if alias.asname != alias.name else None)
                 for alias in node.names
